@@ -639,7 +639,7 @@ def c12_raising(tier, rnd):
 CAUGHT = ["AttributeError", "NameError", "LookupError", "TypeError", "ValueError", "KeyError", "UnicodeError", "IndexError", "SubLookup",
           "UnboundLocalError"]
 NOTCAUGHT = ["ZeroDivisionError", "RuntimeError"]
-WRAPS = ["lambda", "lamarg", "listcomp", "genexp", "cond", "dictitem", "setcomp", "paren", "compx", "genx", "lamdef", "nestlam", "lamkw", "nlstr", "nlcomment"]
+WRAPS = ["lambda", "lamarg", "listcomp", "genexp", "cond", "dictitem", "setcomp", "paren", "compx", "genx", "lamdef", "nestlam", "lamkw", "nlstr", "nlcomment", "walrusw"]
 
 
 def shapes(al, tier, excs, ok=None):
@@ -771,6 +771,23 @@ def c04_family(tier, rnd):
             items += [Open(cs=al.call("case", [S("a"), S("b"), S("c"), EXC("ZeroDivisionError")]), sattr=[]), Text("c%d" % c), CLOSE]
         items += [Open(cs=DFLT, sattr=[]), Text("d"), CLOSE, CLOSE, Text("post")]
         progs.append(program(items, al.dom, fam="C04:cases:%d" % ncases))
+    # an assignment expression that is never reached (its element is not rendered) binds nothing: the name it mentions is
+    # the template variable in every other expression -- bound by render(), by a later tal:define, by a tal:repeat, or
+    # unbound (a lookup error that `|` absorbs).  (A REACHED assignment expression binds the template variable; the
+    # machine has no expression with an effect on the scope, so reached ones use a name of their own: wrap `walrusw`.)
+    for bound in (False, True):
+        for site in ("text", "content", "attr", "define"):     # (define: on a child -- a definition precedes its element's condition)
+            al = Alloc(tier)
+            w = wrap("walrusx", al.call("content", [S("a")]))
+            dead = {"text": [Open(cond=const(B(False)), sattr=[]), Text("dead", w), CLOSE],
+                    "content": [Open(cond=const(B(False)), sub=("content", False, w), sattr=[]), Text("old"), CLOSE],
+                    "attr": [Open(cond=const(B(False)), dattr=[("title", w)], sattr=[]), Text("k"), CLOSE],
+                    "define": [Open(cond=const(B(False)), sattr=[]), Open(define=[(False, "y", w)], sattr=[]), Text("k"), CLOSE, CLOSE]}[site]
+            items = [Text("pre", *_P(("x",)))] + dead + [Text("mid", *_P(("x",))),
+                     Open(define=[(False, "x", al.call("define", [S("b")]))], sattr=[]), Text("in", *_P(("x",))), CLOSE,
+                     Open(rep=(False, "x", al.call("repeat", [SEQ([S("a"), S("b")])])), sattr=[]), Text("r", *_P(("x",))), CLOSE,
+                     Text("post", *_P(("x",)))]
+            progs.append(program(items, al.dom, init={"x": S("c")} if bound else {}, fam="C04:walrus-unreached@%s:%s" % (site, bound)))
     # the same expression text several times in one string: every occurrence is an evaluation of its own
     vals = [S("a"), S("b")] if tier == "quick" else [S("a"), S("b"), NONE, EXC("KeyError")]
     for where in ("text", "string-content", "string-attr", "pipe-text", "two-elements"):
